@@ -8,19 +8,62 @@
    in every constant context that can hold its value - static initializer (long and one
    rotating narrower type), enumerator, array bound, bit-field width, _Alignas, array
    designator, case label, #if - and is also computed at run time from non-constant
-   copies of its leaves; every printed value must equal Level A's.
+   copies of its leaves; every printed value must equal Level A's.  Contexts that demand an
+   integer constant expression are used only for expressions that are one (CInt.IsICE);
+   a static-storage bit-field member (rotating type and width) is one more consumer;
+   family fconv: conversions between integer and floating types at the precision
+   boundaries (folded vs run time, and the bytes of a static floating object);
+   family vla: array bounds containing calls / comma operators / floating conditions -
+   the size and the number of calls made must be those of run-time evaluation.
 3. Division / remainder by a constant zero in each constant context must be diagnosed
    (cc1 exits 1 with a file:line message), not crash."""
 import json, os, re, subprocess
 import vt, cexpr
 from vt import Infra
-from cexpr import CT, lit, leaves, render, const_text
+from cexpr import CT, lit, leaves, render, const_text, fconst
 
-FAMS = ["bin", "un", "cast", "cond", "d2l", "d2r", "cc", "case", "enum", "wrap0", "fcmp"]
+FAMS = ["bin", "un", "cast", "cond", "d2l", "d2r", "cc", "case", "enum", "wrap0", "fcmp", "fconv", "vla"]
 STRIDE = 96
 ROT = ["bool", "char", "uchar", "short", "ushort", "int", "uint", "long", "ulong", "enum"]
 WID = {"bool": 1, "char": 8, "uchar": 8, "short": 16, "ushort": 16, "int": 32, "uint": 32, "long": 64, "ulong": 64, "enum": 32}
 SGN = {"char", "short", "int", "long", "enum"}
+# static-storage bit-field members `T f : w` (consumer B rotates over them by case number)
+BF = [("bool", 1), ("int", 1), ("int", 3), ("int", 31), ("int", 32), ("uint", 1), ("uint", 7), ("uint", 32),
+      ("long", 33), ("long", 63), ("long", 64), ("ulong", 5), ("ulong", 63), ("ulong", 64), ("uchar", 8), ("ushort", 11)]
+# c07's own helpers: ci() counts its calls; rd() reads the low n bytes of an object
+PRELUDE7 = """static int cnt;
+static int ci(int v) { cnt++; return v; }
+static unsigned long rd(const void *p, int n) { const unsigned char *c = p; unsigned long r = 0; while (n > 0) r = r << 8 | c[--n]; return r; }
+"""
+
+
+def bfconv(v, t, w):
+    """CInt.BitFieldInit for an integer value: converted to t, then held in w bits"""
+    if t == "bool":
+        return 1 if v else 0
+    m = conv(v, t) % (1 << w)
+    return m - (1 << w) if t in SGN and m >= 1 << (w - 1) else m
+
+
+FPREC = {"float": (24, 8, 127, 4), "double": (53, 11, 1023, 8), "ldouble": (64, 15, 16383, 10)}
+
+
+def fbits(m, tf):
+    """object representation [low 8 bytes, remaining bytes] of the integer m held exactly in floating type tf"""
+    p, ebits, bias, size = FPREC[tf]
+    sign, a = (1, -m) if m < 0 else (0, m)
+    if a == 0:
+        return ["0", "0"]
+    n = a.bit_length()
+    sig = a << (p - n) if n <= p else a >> (n - p)
+    if n > p and sig << (n - p) != a:
+        raise Infra("Level A emitted a value that the floating type cannot hold: %d as %s" % (m, tf))
+    e = n - 1 + bias
+    if tf == "ldouble":                         # x87 extended: explicit integer bit
+        return [str(sig), str(sign << 15 | e)]
+    bits = sign << (ebits + p - 1) | e << (p - 1) | (sig & ((1 << (p - 1)) - 1))
+    return [str(bits), "0"]
+
 
 
 def conv(v, t):
@@ -49,6 +92,12 @@ def consumers(v):
     """-> {tag: expected fields} for the constant contexts that can hold the value"""
     val, t = int(v["s"]), v["t"]
     ex = {"s": [v["u"]], "v": [v["u"], str(v["sz"]), "1" if v["sg"] else "0"]}
+    if not v.get("ice", True):
+        # not an integer constant expression (6.6p6): only the contexts that take any arithmetic constant
+        # expression (static initializers) and a block-scope array, which may be a VLA
+        if 1 <= val <= 2000:
+            ex["A"] = [str(val)]
+        return ex
     if -(1 << 31) <= val < (1 << 31):
         ex["e"] = [u64(val)]
         ex["c"] = ["1"]
@@ -56,6 +105,7 @@ def consumers(v):
         ex["c"] = ["1"]            # labels outside int range (D06, fixed in 2d0d4b7)
     if 1 <= val <= 2000:
         ex["a"] = [str(val)]
+        ex["m"] = [str(val + 1)]
     if 1 <= val <= 32:
         ex["b"] = [str((1 << val) - 1)]
     if val in (1, 2, 4, 8, 16, 32, 64):
@@ -108,15 +158,7 @@ def enum_code(n, v):
     return "\n".join(top), "c%d();" % n, {"e": [u64(int(v["n"]))], "f": [u64(int(v["m"]))]}
 
 
-FSUF = {"float": ("f", "1e38f"), "double": ("", "1e308"), "ldouble": ("L", "1e4932L")}
 FTY = {"float": "float", "double": "double", "ldouble": "long double"}
-
-
-def fconst(tf, name):
-    """a floating constant expression of type tf for the named value of ExprGen.FV"""
-    s, big = FSUF[tf]
-    return {"nan": "(0.0%s/0.0%s)" % (s, s), "inf": "(%s*10)" % big, "ninf": "(-%s*10)" % big, "m1_5": "(-1.5%s)" % s,
-            "m0": "(-0.0%s)" % s, "p0": "0.0%s" % s, "p0_5": "0.5%s" % s, "p2": "2.0%s" % s, "big": "1e30%s" % s}[name]
 
 
 def fexpr(v, x, y):
@@ -130,26 +172,67 @@ def fexpr(v, x, y):
     return "(%s %s %s)" % (x, cexpr.OPS[op], y)
 
 
-def fcmp_code(n, v):
-    """family fcmp: floating operands of an operator with an integer result, folded and at run time"""
-    tf = v["tf"]
-    E = fexpr(v, fconst(tf, v["x"]), fconst(tf, v["y"]))
-    rk = ROT[n % len(ROT)]
-    val = int(v["s"])
-    top = ["static %s s%d = %s;" % ("long" if v["sg"] else "unsigned long", n, E),
-           "static %s t%d = %s;" % (CT[rk], n, E),
-           "static %s g%d_0 = %s;" % (FTY[tf], n, fconst(tf, v["x"])),
-           "static %s g%d_1 = %s;" % (FTY[tf], n, fconst(tf, v["y"]))]
-    body = ['printf("%d s %%lu\\n", (unsigned long)s%d);' % (n, n), 'printf("%d t %%lu\\n", (unsigned long)t%d);' % (n, n),
-            "P(%d, %s);" % (n, fexpr(v, "g%d_0" % n, "g%d_1" % n))]
+def fcmp_tree(v):
+    """family fcmp as an expression tree over named floating constants ("fv" leaves)"""
+    x = {"k": "fv", "t": v["tf"], "n": v["x"]}
+    y = {"k": "fv", "t": v["tf"], "n": v["y"]}
+    op = v["op"]
+    if op == "toint":
+        return {"k": "cast", "t": v["td"], "a": x}
+    if op == "cond":
+        return {"k": "cond", "c": x, "a": {"k": "leaf", "t": "int", "v": "1"}, "b": {"k": "leaf", "t": "int", "v": "2"}}
+    if op == "lnot":
+        return {"k": "un", "op": "lnot", "a": x}
+    return {"k": "bin", "op": op, "a": x, "b": y}
+
+
+def finit_code(n, v):
+    """family fconv, op finit: `static F2 s = (F)x;` - the bytes of the object, and of the same conversion at run time"""
+    e = v["e"]
+    tf = v["t"]
+    size = FPREC[tf][3]
+    lo, hi = min(size, 8), size - min(size, 8)
+    lv = leaves(e)
+    top = ["static %s s%d = %s;" % (FTY[tf], n, const_text(e))]
+    top += ["static %s g%d_%d = %s;" % (CT[l["t"]], n, i, lit(l["t"], int(l["v"]))) for i, l in enumerate(lv)]
+    body = ['printf("%d s %%lu %%lu\\n", rd(&s%d, %d), rd((char *)&s%d + %d, %d));' % (n, n, lo, n, lo, hi),
+            "{ %s r = %s; " % (FTY[tf], render(e, lambda i, l: "g%d_%d" % (n, i)))
+            + 'printf("%d v %%lu %%lu\\n", rd(&r, %d), rd((char *)&r + %d, %d)); }' % (n, lo, lo, hi)]
     top.append("static void c%d(void) { %s }" % (n, "\n ".join(body)))
-    return ("\n".join(top), "c%d();" % n,
-            {"s": [v["u"]], "t": [u64(conv(val, rk))], "v": [v["u"], str(v["sz"]), "1" if v["sg"] else "0"]})
+    bits = fbits(int(v["s"]), tf)
+    return "\n".join(top), "c%d();" % n, {"s": bits, "v": bits}
+
+
+def vla_code(n, v, only=None):
+    """family vla: a block-scope array whose bound contains a call / comma operator / floating condition: its size
+    and the number of calls made while the declaration is executed; an integer constant expression is also
+    used at file scope and as a member"""
+    E = const_text(v["e"])
+    val = int(v["s"])
+    ex = {"w": [str(val), str(v["calls"])]}
+    if v["ice"]:
+        ex["a"] = [str(val)]
+        ex["m"] = [str(val + 1)]
+    if only:
+        ex = {k: x for k, x in ex.items() if k == only}
+    top, body = [], []
+    if "w" in ex:
+        body.append('cnt = 0; { char w[%s]; printf("%d w %%lu %%d\\n", (unsigned long)sizeof(w), cnt); }' % (E, n))
+    if "a" in ex:
+        top.append("static char a%d[%s];" % (n, E))
+        body.append('printf("%d a %%lu\\n", (unsigned long)sizeof(a%d));' % (n, n))
+    if "m" in ex:
+        top.append("struct M%d { char c[%s]; char d; };" % (n, E))
+        body.append('printf("%d m %%lu\\n", (unsigned long)sizeof(struct M%d));' % (n, n))
+    top.append("static void c%d(void) { %s }" % (n, "\n ".join(body)))
+    return "\n".join(top), "c%d();" % n, ex
 
 
 def desc(v):
     if v["f"] == "fcmp":
         return "%s %s" % (v["tf"], fexpr(v, v["x"], v["y"]))
+    if v["f"] == "vla":
+        return "char w[%s]" % const_text(v["e"])
     if v["f"] == "case":
         return "switch(%s=%s){%scase (%s)%s}" % (v["tc"], v["x"], "" if v["tn"] == "-" else "nested switch(%s); " % v["tn"], v["tl"], v["lv"])
     if v["f"] == "enum":
@@ -162,13 +245,20 @@ def case_code(n, v, only=None):
         return switch_code(n, v)
     if v["f"] == "enum":
         return enum_code(n, v)
-    if v["f"] == "fcmp":
-        return fcmp_code(n, v)
+    if v["f"] == "vla":
+        return vla_code(n, v, only)
+    if v["f"] == "fconv" and v["op"] == "finit":
+        return finit_code(n, v)
     e, val, t = v["e"], int(v["s"]), v["t"]
     E = const_text(e)
     ex = consumers(v)
     rk = ROT[n % len(ROT)]
     ex["t"] = [u64(conv(val, rk))]
+    bt, bw = BF[n % len(BF)]
+    if n % 3 == 0:                                  # every third case (3 and len(BF) are coprime: every member type is met)
+        ex["B"] = [u64(bfconv(val, bt, bw))]
+    if v["f"] == "fcmp" and v["op"] == "toint":     # a floating constant converted implicitly to a bit-field of type td
+        ex["F"] = [u64(val)]
     if only:
         ex = {k: x for k, x in ex.items() if k == only}
     top, body = [], []
@@ -181,12 +271,23 @@ def case_code(n, v, only=None):
     if "i" in ex:
         top.append("static %s i%d = %s;" % (CT[e["t"]], n, const_text(e["a"])))
         body.append('printf("%d i %%lu\\n", (unsigned long)i%d);' % (n, n))
+    if "B" in ex:
+        top.append("static struct { %s f : %d; } B%d = { %s };" % (CT[bt], bw, n, E))
+        body.append('printf("%d B %%lu\\n", (unsigned long)B%d.f);' % (n, n))
+    if "F" in ex:
+        top.append("static struct { %s f : %d; } F%d = { %s };" % (CT[v["td"]], 1 if v["td"] == "bool" else WID[v["td"]], n, const_text(e["a"])))
+        body.append('printf("%d F %%lu\\n", (unsigned long)F%d.f);' % (n, n))
     if "e" in ex:
         top.append("enum { e%d = %s };" % (n, E))
         body.append('printf("%d e %%lu\\n", (unsigned long)(long)e%d);' % (n, n))
     if "a" in ex:
         top.append("static char a%d[%s];" % (n, E))
         body.append('printf("%d a %%lu\\n", (unsigned long)sizeof(a%d));' % (n, n))
+    if "A" in ex:
+        body.append('{ char w[%s]; printf("%d A %%lu\\n", (unsigned long)sizeof(w)); }' % (E, n))
+    if "m" in ex:
+        top.append("struct M%d { char c[%s]; char d; };" % (n, E))
+        body.append('printf("%d m %%lu\\n", (unsigned long)sizeof(struct M%d));' % (n, n))
     if "b" in ex:
         top.append("static struct { unsigned int f : %s; } b%d;" % (E, n))
         body.append('b%d.f = ~0u; printf("%d b %%lu\\n", (unsigned long)b%d.f);' % (n, n, n))
@@ -209,7 +310,8 @@ def case_code(n, v, only=None):
         body.append('printf("%d q %%d\\n", R%d);' % (n, n))
     if "v" in ex:
         lv = leaves(e)
-        top += ["static %s g%d_%d = %s;" % (CT[l["t"]], n, i, lit(l["t"], int(l["v"]))) for i, l in enumerate(lv)]
+        top += ["static %s g%d_%d = %s;" % (CT[l["t"]], n, i, fconst(l["t"], l["n"]) if l["k"] == "fv" else lit(l["t"], int(l["v"])))
+                for i, l in enumerate(lv)]
         body.append("P(%d, %s);" % (n, render(e, lambda i, l: "g%d_%d" % (n, i))))
     top.append("static void c%d(void) { %s }" % (n, "\n ".join(body)))
     return "\n".join(top), "c%d();" % n, ex
@@ -221,10 +323,11 @@ def mkprog(cases):
         t, c, _ = case_code(n, cs[0], cs[1])
         tops.append(t)
         calls.append(c)
-    return cexpr.PRELUDE + "\n".join(tops) + "\nint main(void) {\n" + "\n".join(calls) + "\nreturn 0; }\n"
+    return cexpr.PRELUDE + PRELUDE7 + "\n".join(tops) + "\nint main(void) {\n" + "\n".join(calls) + "\nreturn 0; }\n"
 
 
-NAMES = dict(f="next-enumerator", i="static-init-implicit", s="static-init-long", t="static-init", e="enumerator", a="array-bound", b="bitfield-width", l="alignas",
+NAMES = dict(A="block-array-bound", m="member-array-bound", w="array-vla", B="static-bitfield", F="static-bitfield-implicit",
+             f="next-enumerator", i="static-init-implicit", s="static-init-long", t="static-init", e="enumerator", a="array-bound", b="bitfield-width", l="alignas",
              d="designator", c="case-label", p="pp-if", q="pp-if-eq", v="runtime")
 
 
@@ -233,14 +336,30 @@ def cls(v, tag, n, what):
         return "const:switch-label:%s:nested-%s:%s:%s" % (v["tc"], v["tn"], v["tl"], what)
     if v["f"] == "enum":
         return "const:enumerator-%s:%s:%s:%s" % (v["form"], v["op"], v["tc"], what)
-    if v["f"] == "fcmp":
-        return "const:%s:float-%s:%s(%s,%s):%s" % (NAMES.get(tag, tag), v["tf"], v["op"], v["x"], v["y"], what)
     extra = ""
     if tag == "t":
         extra = "-" + ROT[n % len(ROT)]
+    if tag == "B":
+        extra = "-%s-w%d" % BF[n % len(BF)]
+    if tag == "F":
+        extra = "-%s-w%d" % (v["td"], 1 if v["td"] == "bool" else WID[v["td"]])
     if tag == "c" and not -(1 << 31) <= int(v["s"]) < (1 << 31):
         extra = "-wide"
+    if v["f"] == "fcmp":
+        return "const:%s%s:float-%s:%s(%s,%s):%s" % (NAMES.get(tag, tag), extra if tag in "BF" else "", v["tf"], v["op"], v["x"], v["y"], what)
+    if v["f"] == "vla" and tag == "w":
+        return "const:array-vla:%s:%s:%s:%s:%s" % (v["op"], v["nk"], v["op2"], v["cnd"], what)
+    if v["f"] == "fconv" and v["op"] == "finit" and tag == "s":
+        extra = "-" + v["t"]
     return "const:%s%s:%s:%s" % (NAMES[tag], extra, cexpr.shape(v["e"]), what)
+
+
+def what_of(k, exp, got):
+    if isinstance(got, tuple):
+        return "crash-or-rejected"
+    if k == "w" and got and got[:1] == exp[:1]:
+        return "calls"                           # the size is right, the number of calls made is not
+    return "value"
 
 
 def diffs(exp, got):
@@ -255,9 +374,9 @@ def judge(ctx, tree, vecs, tag):
     for n, (v, _) in items:
         exp, got = case_code(n, v)[2], res.get(n)
         for k in exp:
-            ctx.note_case("%s|%s|%s" % (k, ROT[n % len(ROT)] if k == "t" else "", desc(v)), nontrivial=k != "v")
+            ctx.note_case("%s|%s|%s" % (k, ROT[n % len(ROT)] if k == "t" else "%s:%d" % BF[n % len(BF)] if k == "B" else "", desc(v)), nontrivial=k != "v")
         if isinstance(got, tuple):
-            retry += [(n * 16 + j, (v, k)) for j, k in enumerate(sorted(exp))]
+            retry += [(n * 32 + j, (v, k)) for j, k in enumerate(sorted(exp))]
         else:
             bad += [(n, v, k, exp[k], got.get(k)) for k in diffs(exp, got)]
     if retry:                                    # a case the compiler rejected: find the consumer
@@ -265,11 +384,11 @@ def judge(ctx, tree, vecs, tag):
 
         def again(it):
             m, (v, k) = it
-            return it, cexpr.run_cases(cexpr.chibicc_cmd(tree), [(m // 16, (v, k))], mkprog, wd, "r%d" % m)[m // 16]
+            return it, cexpr.run_cases(cexpr.chibicc_cmd(tree), [(m // 32, (v, k))], mkprog, wd, "r%d" % m)[m // 32]
         for (m, (v, k)), r in vt.pmap(again, retry):
-            exp = case_code(m // 16, v, k)[2]
+            exp = case_code(m // 32, v, k)[2]
             if isinstance(r, tuple) or r.get(k) != exp[k]:
-                bad.append((m // 16, v, k, exp[k], r if isinstance(r, tuple) else r.get(k)))
+                bad.append((m // 32, v, k, exp[k], r if isinstance(r, tuple) else r.get(k)))
     if bad:
         # the rotating destination type depends on the case number: keep it
         wd = ctx.tmp(tag + "-gcc")
@@ -278,8 +397,7 @@ def judge(ctx, tree, vecs, tag):
             if isinstance(g, tuple) or g.get(k) != exp:
                 ctx.oracle_disagreements += 1
                 continue
-            what = "crash-or-rejected" if isinstance(got, tuple) else "value"
-            ctx.report(cls(v, k, n, what),
+            ctx.report(cls(v, k, n, what_of(k, exp, got)),
                        "%s as %s: spec (and gcc) %s, chibicc %s" % (desc(v), NAMES.get(k, k), exp, got if not isinstance(got, tuple) else got[1][-200:]),
                        case=dict(kind="const", vec=v, n=n, consumer=k, expected=exp, got=got, program=mkprog([(n, (v, k))])))
     ctx.cov["traces_validated_against_impl"] += len(items)
@@ -323,22 +441,40 @@ def run(ctx):
     tree = ctx.build()
     ctx.phase("build done")
     cexpr.model_check(ctx, "ExprMC_quick.cfg" if q else "ExprMC.cfg",
-                      "eval2/is_const_expr (ConstEval) does not compute the C11 value or type of a constant expression",
-                      ["ConstInv", "CaseInv", "EnumInv", "FltInv"], workers=12 if q else 16, sensitivity=False,
-                      Shapes='{"bin","un","cast","cond","cc","case","enum","fcmp","d2l","d2r","d2u"}')
-    # sensitivity control: the pinned folder (cast arm typed uint32_t, no re-wrapping) must be rejected
-    c2 = ctx.cfg("expr", "ExprMC_quick.cfg", FIX_D10=False, Shapes='{"un","cast"}')
-    t2 = re.sub(r"(?m)^INVARIANTS .*$", "INVARIANTS ConstInv", open(c2).read())
-    open(c2, "w").write(t2)
-    if ctx.tlc("expr", "ExprMC", c2, workers=4, timeout=600, count=False).ok:
-        raise Infra("sensitivity control failed: TLC accepts the folder with the uint32_t cast arm")
+                      "eval2/eval_double/is_const_expr/write_gvar_data (ConstEval) do not compute the C11 value or type of a constant expression, or the array / VLA decision loses a side effect",
+                      ["ConstInv", "CaseInv", "EnumInv", "FltInv", "VlaInv", "BfInv"], workers=12 if q else 16, sensitivity=False,
+                      Shapes='{"bin","un","cast","cond","cc","case","enum","fcmp","d2l","d2r","d2u","fcc","fbin","fun","fcond","vla","bfinit","bfinitf"}')
+    # sensitivity controls: the pinned folder (cast arm typed uint32_t, no re-wrapping) and the wrong variants of the
+    # floating conversions, of is_const_expr and of the static bit-field store must each be rejected
+    def control_cfg(name, consts, inv):
+        c2 = ctx.cfg("expr", "ExprMC_quick.cfg", name="sens-" + name, **consts)
+        t2 = re.sub(r"(?m)^INVARIANTS .*$", "INVARIANTS " + inv, open(c2).read())
+        open(c2, "w").write(t2)
+        return name, c2
+    controls = [("pinned-cast-arm", dict(FIX_D10=False, Shapes='{"un","cast"}'), "ConstInv"),
+                ("castnoround", dict(MUT='"castnoround"', Shapes='{"fcc"}'), "ConstInv"),
+                ("nonint", dict(MUT='"nonint"', Shapes='{"vla"}'), "VlaInv"),
+                ("commaconst", dict(MUT='"commaconst"', Shapes='{"vla"}'), "VlaInv"),
+                ("condtrunc", dict(MUT='"condtrunc"', Shapes='{"vla"}'), "VlaInv"),
+                ("bfnoconv", dict(MUT='"bfnoconv"', Shapes='{"bfinit"}'), "BfInv"),
+                ("bfmask", dict(MUT='"bfmask"', Shapes='{"bfinit"}'), "BfInv")]
+    if q:       # quick: the pinned folder and two of the six others, rotating with the seed; thorough: all
+        controls = controls[:1] + [controls[1 + (2 * ctx.seed + d) % 6] for d in (0, 1)]
+    if not os.environ.get("VERIF_DEV_SKIP_MC"):
+        cfgs = [control_cfg(*c) for c in controls]
+        for name, ok in vt.pmap(lambda c: (c[0], ctx.tlc("expr", "ExprMC", c[1], workers=1, timeout=600, count=False, heap="1g").ok), cfgs, workers=4):
+            if ok:
+                raise Infra("sensitivity control failed: TLC accepts the wrong variant %s" % name)
     ctx.phase("mc done")
     vec = cexpr.generate(ctx, FAMS, STRIDE if q else 1, 6 if q else 1, workers=12 if q else 16, minimum=1000, base=2, d2base=4)
     ctx.phase("gen done (%d vectors)" % len(vec))
     dz = [v for v in vec if v["dz"]]
     vec = [v for v in vec if not v["dz"]]
+    for v in vec:
+        if v["f"] == "fcmp":
+            v["e"] = fcmp_tree(v)
     for v in vec[:: max(1, len(vec) // 3)][:3]:
-        if v["f"] in ("case", "enum", "fcmp"):
+        if v["f"] in ("case", "enum", "fcmp", "vla") or "t" not in v or v["t"] in FTY:
             ctx.sample(dict(kind=v["f"], what=desc(v)))
         else:
             ctx.sample(dict(kind="constant expression", expr=const_text(v["e"]), type=v["t"], value=v["s"],
@@ -354,10 +490,12 @@ def run(ctx):
     ctx.assumptions += [
         "ConstEval (ChibiInt.tla part 2) is a hand transcription of parse.c eval2/is_const_expr; the replayed programs judge the real compiler",
         "#if is exercised only with long / unsigned long leaves and no casts (there C semantics = preprocessor semantics); int-typed literals in #if belong to C10",
-        "floating constant expressions (eval_double) belong to C02's builder",
+        "floating constant expressions (eval_double) are covered where every value is an integer (conversions of integers at the precision boundaries, + -, unary -, ?:, comparisons); products, quotients and fractional values belong to C02",
+        "contexts that demand an integer constant expression (array bound at file scope / in a member, enumerator, case label, bit-field width, _Alignas, designator) are used only for expressions that are one by C11 6.6p6 (CInt.IsICE); other arithmetic constant expressions are used as static initializers and block-scope array bounds",
+        "family vla counts the calls made while a block-scope array declaration is executed; the run-time evaluation of a VLA bound itself is C03/C04's",
         "a context is used only when the value fits it (array bound 1..2000, bit-field width 1..32, _Alignas power of two <= 64, designator 0..500, enumerator in int range)"]
     return ctx.finish(
-        rule="case = (constant expression of ExprGen.tla's closed domain, constant context that can hold its value) + the same expression computed at run time from non-constant copies; plus zero-divisor expressions in each context as diagnostic behaviours; non-trivial = every constant context (the run-time evaluation is the C01 side); distinct = distinct (context, destination type, expression text)",
+        rule="case = (constant expression of ExprGen.tla's closed domain, constant context that can hold its value) + the same expression computed at run time from non-constant copies; plus zero-divisor expressions in each context as diagnostic behaviours; family vla: a block-scope array bound with a call / comma operator / floating condition - (size, calls made); non-trivial = every constant context (the run-time evaluation is the C01 side); distinct = distinct (context, destination type, expression text)",
         exhaustive=not q,
         extra=dict(vectors=len(vec), divzero=len(dz), stride=STRIDE if q else 1))
 
@@ -378,6 +516,6 @@ def replay(ctx, path):
         r = cexpr.run_cases(cexpr.chibicc_cmd(tree), [(n, (v, k))], mkprog, wd, "rp")[n]
         exp = case_code(n, v, k)[2]
         if isinstance(r, tuple) or r.get(k) != exp[k]:
-            ctx.report(cls(v, k, n, "crash-or-rejected" if isinstance(r, tuple) else "value"),
+            ctx.report(cls(v, k, n, what_of(k, exp[k], r if isinstance(r, tuple) else r.get(k))),
                        "%s as %s: spec %s, chibicc %s" % (desc(v), NAMES.get(k, k), exp[k], r), case=c)
     return ctx.finish(rule="replay of one recorded case")
